@@ -31,6 +31,11 @@ def main():
         env = dict(os.environ)
         env['PYTHONHASHSEED'] = '0'
         os.execve(sys.executable, [sys.executable] + sys.argv, env)
+    if a.tier == 'thorough':
+        # the thorough tier lets real CBC work longer on the instances at
+        # scale (255..258 students under -stab need more than 15 s)
+        os.environ.setdefault('VERIF_CBC_LIMIT', '90')
+        os.environ.setdefault('VERIF_WALL_CAP', '400')
     import batch
     seed = int(os.environ.get('VERIF_SEED', batch.DEFAULT_SEED))
     if a.replay:
